@@ -20,10 +20,11 @@ RULE = ("TLC checks DeployOnlyToLiveFull / StopsUsingDeadAssembly / RedeployFrom
 
 DEVS = dict(Dev_PendingNotCleared=False, Dev_OpKeepsCheckpoint=False, Dev_SplitterAppended=False)
 TLC_WORKERS = 8   # the machine is shared
+FAULTS = '@{"Kill", "Deregister"}'
 
 
 def consts(W, N, ev, boot=0, flaky=1, maxlen=1000, live=False, **dev):
-    c = dict(W=W, N=N, MaxEv=ev, MaxFlaky=flaky, Boot=boot, MaxLen=maxlen, Live=live)
+    c = dict(W=W, N=N, MaxEv=ev, MaxFlaky=flaky, Boot=boot, MaxLen=maxlen, Live=live, Focus=False, Faults=FAULTS)
     c.update(DEVS)
     c.update(dev)
     return c
@@ -42,7 +43,8 @@ def tlc_liveness(c, cfgs, timeout):
         c.add_tlc(r, "Membership liveness (RunsAgain, CheckpointsResume) W=%d N=%d faults=%d" % (k["W"], k["N"], k["MaxEv"]))
         # the same check must FAIL for each named leftover: the liveness property is not vacuous
     k = cfgs[0]
-    for d in ("Dev_PendingNotCleared", "Dev_OpKeepsCheckpoint", "Dev_SplitterAppended"):
+    devs = ("Dev_PendingNotCleared", "Dev_OpKeepsCheckpoint", "Dev_SplitterAppended")
+    for d in (devs if c.tier != "quick" else devs[c.seed % 3:c.seed % 3 + 1]):
         kk = dict(k)
         kk[d] = True
         r = vlib.run_tlc("Membership", cfg=dict(spec="LiveSpec", constants=kk, properties=["CheckpointsResume"], constraint="LiveConstraint"),
@@ -70,20 +72,24 @@ def fake_arm(c, gens, num):
     return allb
 
 
-def adversarial(c, base, num, keep):
-    """behaviours on which only the unrepaired design (one named leftover) gets stuck: the real code must pass them"""
-    for j, d in enumerate(("Dev_PendingNotCleared", "Dev_OpKeepsCheckpoint", "Dev_SplitterAppended")):
-        k = dict(base)
-        k[d] = True
-        behs, r = vlib.gen_counterexamples("Membership", k, limit=keep, num=num, depth=k["MaxLen"] + 5, seed=c.seed * 100 + j, timeout=120)
-        if not behs:
-            raise vlib.MachineryError("no counterexample behaviours for " + d)
-        # replay against the REPAIRED expectations: same external steps, the harness judges by the property
-        kk = dict(base)
-        behs = [strip_dev(b) for b in behs]
+def adversarial(c, combos):
+    """Shortest schedules (breadth-first, with the VIEW) on which the design with ONE named leftover of the old assembly
+    gets stuck; the real code must pass them: replayed leniently (the deviating model's predictions are left as soon as
+    they differ) and judged by the model-free epilogue."""
+    for (W, N, ev, boot, dev, faults) in combos:
+        k = consts(W, N, ev, boot=boot, flaky=2)
+        k[dev] = True
+        k["Focus"] = True
+        k["Faults"] = faults
+        r = vlib.run_tlc("Membership", cfg=dict(constants=k, invariants=["CexStop"], view="view"), workers=4, timeout=200, name="Membership-cex")
+        c.add_tlc(r, "Membership shortest counterexample with %s W=%d faults=%s" % (dev, W, faults[1:]), must_hold=False)
+        if r.violated != "CexStop" or not r.behaviours:
+            raise vlib.MachineryError("no counterexample with %s (W=%d): %s %s" % (dev, W, r.violated, r.error))
+        behs = [strip_dev(b) for b in r.behaviours]
+        kk = consts(W, N, ev, boot=boot, flaky=2)
         payload = dict(property="C15", seed=c.seed, config=dict(kk, mode="fake", Chunk=40, Lenient=True), behaviours=behs)
         res = vlib.run_harness("membership", payload)
-        c.add_harness(res, payload, "fake nodes, schedules that wedge the design with %s (%d)" % (d, len(behs)))
+        c.add_harness(res, payload, "fake nodes, schedule that wedges the design with %s (W=%d, %s)" % (dev, W, faults[1:]))
 
 
 def strip_dev(beh):
@@ -197,6 +203,8 @@ def real_arm(c, allb, per_w, variants):
         res = vlib.run_harness("membership", payload, timeout=3000)
         c.add_harness(res, payload, "real workers W=%d: %d fault skeletons from TLC behaviours + %d fixed" % (W, len(chosen), len(HAND)))
         c.extra.setdefault("skeletons", {})["W%d" % W] = [list(map(list, s)) for s in chosen]
+        if res.get("counters", {}).get("staging_skipped", 0) * 2 > len(behs):
+            c.errors.append("real workers W=%d: %d of %d scenarios could not stage their fault" % (W, res["counters"]["staging_skipped"], len(behs)))
 
 
 def selftest(c, k, behs):
@@ -211,11 +219,11 @@ def selftest(c, k, behs):
 def run(c):
     quick = c.tier == "quick"
     if quick:
-        safety = [consts(1, 2, 6), consts(1, 3, 5, boot=1), consts(2, 2, 5, boot=2), consts(2, 3, 4, boot=2)]
+        safety = [consts(1, 2, 6), consts(1, 3, 5, boot=1), consts(2, 2, 5, boot=2)]
         live = [consts(1, 2, 1, live=True), consts(2, 2, 1, live=True)]
         gens = [consts(1, 3, 9, boot=1, flaky=2, maxlen=45), consts(1, 2, 9, boot=0, flaky=2, maxlen=40),
                 consts(2, 3, 9, boot=2, flaky=2, maxlen=60), consts(2, 4, 9, boot=2, flaky=2, maxlen=60)]
-        num, per_w, variants, adv = 150, 8, 1, 12
+        num, per_w, variants = 120, 8, 1
         t_safety, t_live = 120, 150
     else:
         safety = [consts(1, 2, 7), consts(1, 3, 6, boot=1), consts(1, 3, 6), consts(2, 2, 6), consts(2, 2, 6, boot=2),
@@ -224,14 +232,20 @@ def run(c):
         gens = [consts(1, 3, 9, boot=1, flaky=2, maxlen=50), consts(1, 2, 9, boot=0, flaky=2, maxlen=45), consts(1, 3, 9, boot=0, flaky=2, maxlen=50),
                 consts(2, 3, 9, boot=2, flaky=2, maxlen=70), consts(2, 4, 9, boot=2, flaky=2, maxlen=70), consts(2, 3, 9, boot=0, flaky=2, maxlen=70),
                 consts(2, 2, 9, boot=2, flaky=3, maxlen=70)]
-        num, per_w, variants, adv = 700, 24, 2, 60
+        num, per_w, variants = 700, 24, 2
         t_safety, t_live = 400, 600
     tlc_safety(c, safety, t_safety)
     tlc_liveness(c, live, t_live)
     c.exhaustive = True
     allb = fake_arm(c, gens, num)
-    adversarial(c, consts(1, 3, 9, boot=1, flaky=1, maxlen=45), 3000 if quick else 8000, adv)
-    adversarial(c, consts(2, 3, 9, boot=2, flaky=1, maxlen=60), 3000 if quick else 8000, adv)
+    DEV = ("Dev_PendingNotCleared", "Dev_OpKeepsCheckpoint", "Dev_SplitterAppended")
+    K, D = '@{"Kill"}', '@{"Deregister"}'
+    combos = [(1, 2, 6, 1, d, f) for d in DEV for f in (K, D)]
+    if quick:
+        combos.append((2, 3, 7, 2, DEV[0], D))
+    else:
+        combos += [(2, 3, 7, 2, d, f) for d in DEV for f in (K, D)] + [(1, 3, 6, 1, d, K) for d in DEV]
+    adversarial(c, combos)
     selftest(c, allb[0][0], allb[0][1])
     real_arm(c, allb, per_w, variants)
     c.assumptions += [
